@@ -7,6 +7,7 @@ Spec: AgVerif.Spec.Manifest (`ManifestModel`, `toXml`, Android's class-name comp
 Proved on the abstract tree; that the tree is the one encoded in the APK is C26 + zip reading (correspondence and oracle only).
 -/
 import AgVerif.Proof.Manifest
+import AgVerif.Proof.ManifestLauncher
 set_option linter.unusedSimpArgs false
 namespace AgVerif.C31
 open AgVerif.Manifest AgVerif.Spec.Manifest AgVerif.Proof.Manifest AgVerif.Gen.AxmlConsts
@@ -272,6 +273,76 @@ theorem queries_spec_permissions (m : ManifestModel) (h : WF m) :
     simp [completePermissions]
   exact ⟨e, fun n => by rw [e, mem_dedup]⟩
 
+/-! ## the full manifest (Spec/ManifestFull.lean): uses-sdk, maxSdkVersion, activity aliases, enabled flags, intent filters -/
+
+/-- the simple model above is the full one without uses-sdk, aliases, flags and filters: same XML -/
+theorem simple_model_is_full (m : ManifestModel) : m.full.toXml = toXml m := by
+  simp [ManifestModel.full, AppManifest.toXml, toXml, el, named, leaf, att, optAtt, Tag.str, AName.str, Val.render,
+    UsesPermission.toXml, Activity.toXml, Activity.tag, Function.comp_def]
+  rfl
+
+/-- every listed list / value query on the XML of a well-formed manifest answers what the manifest declares: package, version
+    code and name, permissions (each once) and uses-permission with maxSdkVersion, activities / services / receivers / providers
+    completed by Android's rule (aliases are not activities), libraries, features, min / target / max SDK, effective target -/
+theorem queries_on_model (m : AppManifest) (h : m.WF) : answersOfAnalysis (analyse (some m.toXml)) = m.answers :=
+  answers_toXml m h
+
+/-- `get_min_sdk_version` / `get_target_sdk_version` / `get_max_sdk_version`: the attribute of `<uses-sdk>` as written, Python
+    `None` when the element or the attribute is missing -/
+theorem queries_spec_sdk (m : AppManifest) (h : m.WF) :
+    (analyse (some m.toXml)).sdk attrMinSdk = optFirst (m.sdkVal (·.min)) ∧
+    (analyse (some m.toXml)).sdk attrTargetSdk = optFirst (m.sdkVal (·.target)) ∧
+    (analyse (some m.toXml)).sdk attrMaxSdk = optFirst (m.sdkVal (·.max)) :=
+  sdk_toXml m h.2.2.2.1
+
+/-- `uses_permissions`: every `<uses-permission>` with its maxSdkVersion as an integer, `None` when absent or not an integer -/
+theorem queries_spec_uses_permissions (m : AppManifest) :
+    (analyse (some m.toXml)).usesPermissions = m.permissions.map fun p => (some p.name, (p.maxSdk.map Val.render).bind intOrNone) :=
+  usesPermissions_toXml m
+
+/-- the effective target SDK of a manifest: the declared target, else the declared min, else 1; a value that is not an
+    integer counts as 1 -/
+theorem effective_target_of_model (m : AppManifest) (h : m.WF) :
+    (∀ s, m.sdkVal (·.target) = some s → (analyse (some m.toXml)).effectiveTarget = some (intOrOne s)) ∧
+    (∀ s, m.sdkVal (·.target) = none → m.sdkVal (·.min) = some s → (analyse (some m.toXml)).effectiveTarget = some (intOrOne s)) ∧
+    (m.sdkVal (·.target) = none → m.sdkVal (·.min) = none → (analyse (some m.toXml)).effectiveTarget = some (.ok 1)) := by
+  rw [effectiveTarget_toXml m h.2.2.2.1]
+  refine ⟨?_, ?_, ?_⟩
+  · intro s hs; simp [AppManifest.answers, hs]
+  · intro s ht hs; simp [AppManifest.answers, ht, hs]
+  · intro ht hs; simp [AppManifest.answers, ht, hs]
+
+/-- `get_main_activities`: exactly the names of the enabled activities and aliases that have a filter with action MAIN and
+    category LAUNCHER, each once -/
+theorem main_activities_of_model (m : AppManifest) (h : m.WF) :
+    (∀ n, n ∈ (analyse (some m.toXml)).mainActivities ↔ ∃ a ∈ m.activities, a.isMain = true ∧ a.name = n) ∧
+    (analyse (some m.toXml)).mainActivities.Nodup := by
+  refine ⟨fun n => ?_, mainActivities_nodup _⟩
+  rw [mem_mainActivities m h]
+  simp [AppManifest.mainNames, List.mem_map, List.mem_filter, and_assoc]
+
+/-- the order of `get_main_activity`'s `sorted`: lexicographic by code point, a strict total order -/
+theorem str_order :
+    (∀ a, strLt a a = false) ∧ (∀ a b c, strLt a b = true → strLt b c = true → strLt a c = true) ∧
+    (∀ a b, strLt a b = false → strLt b a = false → a = b) :=
+  ⟨strLt_irrefl, strLt_trans, strLt_total⟩
+
+/-- deterministic tie-break, any tree: whatever the iteration order of the set of main activities, `get_main_activity` returns
+    the least completed name among those that are also `get_activities()` names, or among all of them when none is -/
+theorem main_activity_tiebreak (a : Analysis) (r : Str) (h : a.mainActivity = some r) :
+    r ∈ candidates (a.mainActivities.map (formatValue a.package)) a.activities ∧
+    ∀ y ∈ candidates (a.mainActivities.map (formatValue a.package)) a.activities, strLt y r = false :=
+  mainActivity_least a r h
+
+/-- `get_main_activity` of a manifest: `None` without a launcher activity; otherwise the least completed launcher name among
+    the declared `<activity>` names, or among all launcher names (aliases) when none of them is a declared activity -/
+theorem main_activity_of_model (m : AppManifest) (h : m.WF) :
+    (m.mainNames = [] → (analyse (some m.toXml)).mainActivity = none) ∧
+    (m.mainNames ≠ [] → ∃ r, (analyse (some m.toXml)).mainActivity = some r ∧
+      r ∈ candidates (m.mainNames.map (complete m.package)) m.answers.activities ∧
+      ∀ y ∈ candidates (m.mainNames.map (complete m.package)) m.answers.activities, strLt y r = false) :=
+  mainActivity_toXml m h
+
 /-! Non-vacuity -/
 example : WF ⟨lit "com.x", lit "7", lit "1.0", [lit "android.permission.INTERNET", lit "WRITE"], [], [lit ".Main"], [lit "Svc"], [], [], []⟩ := by
   refine ⟨by decide, by decide, by decide, ?_⟩
@@ -281,5 +352,29 @@ example : WF ⟨lit "com.x", lit "7", lit "1.0", [lit "android.permission.INTERN
 example : complete (lit "com.x") (lit ".Main") = lit "com.x.Main" ∧ complete (lit "com.x") (lit "Main") = lit "com.x.Main" ∧
     complete (lit "com.x") (lit "a.B") = lit "a.B" := by decide
 example : pyInt (lit " 33 ") = .ok 33 ∧ pyInt (lit "Q") = .valueError ∧ pyInt (lit "1_0") = .ok 10 := by decide
+
+
+/-- com.x: two activities (one launcher, one disabled launcher), a launcher alias, two permissions (one with maxSdkVersion,
+    one repeated), uses-sdk with integer min / target, a reference as version code -/
+def exManifest : AppManifest :=
+  { package := lit "com.x", versionCode := some (.int 7), versionName := some (lit "1.0"),
+    usesSdk := some ⟨some (.int 21), some (.int 33), none⟩,
+    permissions := [⟨lit "android.permission.INTERNET", none⟩, ⟨lit "WRITE", some (.int 28)⟩, ⟨lit "WRITE", some (.str (lit "x"))⟩],
+    features := [lit "nfc"],
+    activities := [⟨false, lit ".Main", none, none, [⟨[lit actionMain], [lit categoryLauncher, lit "android.intent.category.DEFAULT"]⟩]⟩,
+      ⟨false, lit "Off", some (.bool false), none, [⟨[lit actionMain], [lit categoryLauncher]⟩]⟩,
+      ⟨true, lit "a.Alias", some (.bool true), some (lit ".Main"), [⟨[lit "android.intent.action.VIEW"], []⟩, ⟨[lit actionMain], [lit categoryLauncher]⟩]⟩],
+    services := [lit "Svc"], receivers := [], providers := [lit ".P"], libraries := [lit "org.apache.http.legacy"] }
+example : exManifest.WF := by decide +kernel
+example : exManifest.mainNames = [lit ".Main", lit "a.Alias"] := by decide +kernel
+example : (analyse (some exManifest.toXml)).mainActivity = some (lit "com.x.Main") := by decide +kernel
+example : exManifest.answers.effectiveTarget = some (.ok 33) ∧ exManifest.answers.permissions = [lit "android.permission.INTERNET", lit "WRITE"] ∧
+    exManifest.answers.usesPermissions = [(some (lit "android.permission.INTERNET"), none), (some (lit "WRITE"), some (.ok 28)), (some (lit "WRITE"), none)] ∧
+    exManifest.answers.activities = [lit "com.x.Main", lit "com.x.Off"] := by decide +kernel
+/-- the last clause of `AppManifest.WF` is needed: with MAIN in one filter and LAUNCHER in another, androguard reports a main
+    activity although no filter is a launcher filter -/
+example : (analyse (some (AppManifest.toXml { exManifest with activities :=
+      [⟨false, lit "Split", none, none, [⟨[lit actionMain], []⟩, ⟨[lit "android.intent.action.VIEW"], [lit categoryLauncher]⟩]⟩] }))).mainActivities
+    = [lit "Split"] := by decide +kernel
 
 end AgVerif.C31
